@@ -5,6 +5,8 @@ import fuzzdrv, core
 VERIF = os.path.dirname(os.path.dirname(os.path.abspath(__file__)))
 C09_PAT = re.compile(r"HANG|after resize|bucket allocator|buckets, outside|custom allocator: peak|bucket level|recording bucket allocator|alloc_bucket_table|free_bucket_table|max_nr_buckets|rculfhash-mm-|_do_cds_lfht_(grow|shrink|resize)|init_table|fini_table")
 
+C09_ONLY = re.compile(r"HANG|bucket allocator|buckets, outside|custom allocator: peak|bucket level|recording bucket allocator|alloc_bucket_table|free_bucket_table|max_nr_buckets")
+
 LFHT_RULE = ("libFuzzer (coverage-guided, ASan+UBSan, asserts on) mutates bytes which a structural decoder turns into a table configuration "
              "(init/min/max orders 0..10 incl. max<init and min>init, one parameter optionally not a power of two, flags 0..3, allocator in "
              "{default, order, chunk, mmap, order wrapped by a recording bucket allocator}, default or recording cds_lfht_alloc, 8 keys with "
@@ -37,7 +39,12 @@ def run_lfht(pid, tier, seed):
         env = {"VERIF_EXCLUDE": ",".join(excl)} if excl else {}
         res = fuzzdrv.campaign("lfht_fuzz", tier, seed, runs, 320, extra_env=env, work_tag=pid)
         fails = fuzzdrv.confirm_failures(res)
-        mine = [f for f in fails if bool(C09_PAT.search(f["msg"])) == (pid == "C09")]
+        # content mismatches after a resize violate both properties (the reference multimap of C08, "resize preserves contents" of C09) and are reported by
+        # both checks; hangs, bucket-count bounds and bucket-allocator protocol failures are C09's alone
+        if pid == "C09":
+            mine = [f for f in fails if C09_PAT.search(f["msg"])]
+        else:
+            mine = [f for f in fails if not C09_ONLY.search(f["msg"])]
         theirs = [f for f in fails if f not in mine]
         attempts += 1
         retry = False
